@@ -11,6 +11,65 @@ mod model;
 
 use checks::Tier;
 
+// ---------------------------------------------------------------------------------------------
+// allocator seam: records the largest single allocation request, refuses absurd ones
+pub mod alloc_seam {
+    use std::alloc::{GlobalAlloc, Layout, System};
+    use std::sync::atomic::{AtomicI32, AtomicUsize, Ordering};
+    pub static MAX_ALLOC: AtomicUsize = AtomicUsize::new(0);
+    pub static LIMIT: AtomicUsize = AtomicUsize::new(16 << 30);
+    pub static RESULT_FD: AtomicI32 = AtomicI32::new(-1);
+    pub static REFUSE_CLASS: AtomicUsize = AtomicUsize::new(0);
+    static mut CONTEXT: [u8; 24] = [0; 24];
+    static CONTEXT_LEN: AtomicUsize = AtomicUsize::new(0);
+    /// what the harness was feeding the server (for attributing a refused allocation)
+    pub fn set_context(s: &str) {
+        let b = s.as_bytes();
+        let n = b.len().min(24);
+        unsafe { for i in 0..n { CONTEXT[i] = if b[i].is_ascii_alphanumeric() || b[i] == b':' { b[i] } else { b'_' }; } }
+        CONTEXT_LEN.store(n, Ordering::Relaxed);
+    }
+    pub struct Counting;
+    #[inline]
+    fn track(size: usize) -> bool {
+        if size > MAX_ALLOC.load(Ordering::Relaxed) { MAX_ALLOC.fetch_max(size, Ordering::Relaxed); }
+        if size > LIMIT.load(Ordering::Relaxed) { refuse(size); return false; }
+        true
+    }
+    /// An allocation beyond the limit: report it as the run's outcome (no heap use here) and end the process.
+    fn refuse(size: usize) {
+        let fd = RESULT_FD.load(Ordering::Relaxed);
+        if fd >= 0 {
+            let mut buf = [0u8; 384];
+            let head0 = b"{\"verdict\":\"violation\",\"violations\":[{\"class\":\"C06/alloc-bomb/refused/";
+            let head = b"\",\"detail\":\"a single allocation request of ";
+            let tail = b" bytes (sized by client- or file-declared length) was refused by the allocator seam\",\"step\":0}]}";
+            let mut n = 0;
+            for b in head0 { buf[n] = *b; n += 1; }
+            let cl = CONTEXT_LEN.load(Ordering::Relaxed);
+            unsafe { for i in 0..cl { buf[n] = CONTEXT[i]; n += 1; } }
+            for b in head { buf[n] = *b; n += 1; }
+            let mut digits = [0u8; 24]; let mut d = 0; let mut v = size;
+            if v == 0 { digits[0] = b'0'; d = 1; }
+            while v > 0 { digits[d] = b'0' + (v % 10) as u8; v /= 10; d += 1; }
+            for i in (0..d).rev() { buf[n] = digits[i]; n += 1; }
+            for b in tail { buf[n] = *b; n += 1; }
+            crate::raw::write_all(fd, &buf[..n]);
+            crate::raw::exit_group(0);
+        }
+    }
+    unsafe impl GlobalAlloc for Counting {
+        unsafe fn alloc(&self, l: Layout) -> *mut u8 { if !track(l.size()) { return std::ptr::null_mut(); } System.alloc(l) }
+        unsafe fn alloc_zeroed(&self, l: Layout) -> *mut u8 { if !track(l.size()) { return std::ptr::null_mut(); } System.alloc_zeroed(l) }
+        unsafe fn dealloc(&self, p: *mut u8, l: Layout) { System.dealloc(p, l) }
+        unsafe fn realloc(&self, p: *mut u8, l: Layout, new: usize) -> *mut u8 { if !track(new) { return std::ptr::null_mut(); } System.realloc(p, l, new) }
+    }
+    pub fn reset_max() -> usize { MAX_ALLOC.swap(0, Ordering::Relaxed) }
+    pub fn max() -> usize { MAX_ALLOC.load(Ordering::Relaxed) }
+}
+#[global_allocator]
+static GLOBAL: alloc_seam::Counting = alloc_seam::Counting;
+
 fn disable_aslr_and_reexec() {
     // pointer-ordered code paths replay identically only with a fixed address-space layout
     unsafe {
